@@ -26,8 +26,8 @@ type Term struct {
 	Args []*Term
 	Sort string
 	Kind int
-	Str  string // for string literals: raw bytes
-	Int  int64  // for small int literals
+	Str  string  // for string literals: raw bytes
+	Int  int64   // for small int literals
 	Q    []*Term // bound vars for quantifiers
 	Pat  [][]*Term
 	key  string
@@ -457,12 +457,12 @@ func StrFromCode(c *Term) *Term {
 	}
 	return App("str.from_code", SString, c)
 }
-func StrContains(s, sub *Term) *Term   { return App("str.contains", SBool, s, sub) }
-func StrPrefixOf(pre, s *Term) *Term   { return App("str.prefixof", SBool, pre, s) }
-func StrSuffixOf(suf, s *Term) *Term   { return App("str.suffixof", SBool, suf, s) }
+func StrContains(s, sub *Term) *Term      { return App("str.contains", SBool, s, sub) }
+func StrPrefixOf(pre, s *Term) *Term      { return App("str.prefixof", SBool, pre, s) }
+func StrSuffixOf(suf, s *Term) *Term      { return App("str.suffixof", SBool, suf, s) }
 func StrIndexOf(s, sub, from *Term) *Term { return App("str.indexof", SInt, s, sub, from) }
-func StrLtT(a, b *Term) *Term          { return App("str.<", SBool, a, b) }
-func StrLeT(a, b *Term) *Term          { return App("str.<=", SBool, a, b) }
+func StrLtT(a, b *Term) *Term             { return App("str.<", SBool, a, b) }
+func StrLeT(a, b *Term) *Term             { return App("str.<=", SBool, a, b) }
 
 // Arrays
 func Select(a, i *Term) *Term {
